@@ -3,8 +3,10 @@ package props
 import (
 	"context"
 	"fmt"
+	"os"
 	"regexp"
 	"runtime"
+	"sort"
 	"strings"
 	"sync"
 	"testing"
@@ -81,13 +83,18 @@ func (c c06Case) files() map[string]string {
 	return files
 }
 
-// model: is a cycle / a missing file reachable from the requested files?
-func (c c06Case) model() (cycle, missing bool) {
+// reach runs a DFS from the requested files over the effective edges (explicit imports plus the implicit
+// descriptor.proto edge) or over the explicit imports only, and says whether it meets a cycle / a missing file.
+func (c c06Case) reach(explicitOnly bool) (cycle, missing bool) {
 	state := make([]int, c.N)
 	var dfs func(v int)
 	dfs = func(v int) {
 		state[v] = 1
-		for _, w := range c.eff(v) {
+		out := c.eff(v)
+		if explicitOnly {
+			out = c.Edges[v]
+		}
+		for _, w := range out {
 			if w >= c.N {
 				missing = true
 				continue
@@ -108,9 +115,24 @@ func (c c06Case) model() (cycle, missing bool) {
 	return
 }
 
+// model: is a cycle / a missing file reachable from the requested files? The implicit dependency on an
+// overriding descriptor.proto counts for cycles (waiting on it can deadlock like any import), but
+// compiler.go documents that its failure is ignored ("descriptor.proto wasn't explicitly imported, so we
+// can ignore a failure"): a missing file makes the compilation fail only when explicit imports lead to it.
+func (c c06Case) model() (cycle, missingAny, cycleExplicit, missingExplicit bool) {
+	cycle, missingAny = c.reach(false)
+	cycleExplicit, missingExplicit = c.reach(true)
+	return
+}
+
 var cycleRe = regexp.MustCompile(`cycle found in imports: (.*)$`)
 
-// withWatchdog runs fn; if it does not return within d it reports whether every goroutine is parked.
+// withWatchdog runs fn. If fn has not returned after d, the verdict "deadlock" (finished=false, with an
+// all-goroutine dump) is given only when two dumps taken 2 s apart show the same goroutines of the code under
+// test, all of them parked in a channel, select or lock wait: nothing can wake them. While some goroutine is
+// still running, runnable or sleeping, fn is merely slow (a loaded machine) and the watchdog keeps waiting; if
+// that lasts for 5 more minutes the process stops with a VERIF-INCONCLUSIVE line, which the driver maps to
+// exit 2, never to a violation.
 func withWatchdog(d time.Duration, fn func()) (finished bool, dump string) {
 	done := make(chan struct{})
 	go func() {
@@ -121,10 +143,70 @@ func withWatchdog(d time.Duration, fn func()) (finished bool, dump string) {
 	case <-done:
 		return true, ""
 	case <-time.After(d):
-		buf := make([]byte, 1<<20)
-		n := runtime.Stack(buf, true)
-		return false, string(buf[:n])
 	}
+	deadline := time.Now().Add(5 * time.Minute)
+	for time.Now().Before(deadline) {
+		d1 := allStacks()
+		select {
+		case <-done:
+			return true, ""
+		case <-time.After(2 * time.Second):
+		}
+		d2 := allStacks()
+		s1, ok1 := parkedSignature(d1)
+		s2, ok2 := parkedSignature(d2)
+		if ok1 && ok2 && s1 == s2 {
+			select {
+			case <-done:
+				return true, ""
+			default:
+			}
+			return false, d2
+		}
+	}
+	fmt.Printf("VERIF-INCONCLUSIVE: a call did not return within %v but its goroutines are not all parked\n%s\n", d+5*time.Minute, firstLinesOf(allStacks(), 80))
+	os.Exit(3)
+	return false, ""
+}
+
+func allStacks() string {
+	buf := make([]byte, 4<<20)
+	return string(buf[:runtime.Stack(buf, true)])
+}
+
+var goroutineHeadRe = regexp.MustCompile(`^goroutine (\d+) \[([^\],]+)`)
+
+// parkedSignature looks at the goroutines that have a frame in the code under test. ok is true when there is
+// at least one and every one of them is blocked on a channel, select or lock; sig identifies them and the
+// place each is blocked at.
+func parkedSignature(dump string) (sig string, ok bool) {
+	var sigs []string
+	for _, block := range strings.Split(dump, "\n\n") {
+		if !strings.Contains(block, "github.com/bufbuild/protocompile") {
+			continue
+		}
+		lines := strings.Split(block, "\n")
+		m := goroutineHeadRe.FindStringSubmatch(lines[0])
+		if m == nil {
+			return "", false
+		}
+		switch m[2] {
+		case "select", "select (no cases)", "chan receive", "chan send", "chan receive (nil chan)", "chan send (nil chan)",
+			"semacquire", "sync.Mutex.Lock", "sync.RWMutex.RLock", "sync.RWMutex.Lock", "sync.Cond.Wait", "sync.WaitGroup.Wait":
+		default:
+			return "", false
+		}
+		top := ""
+		if len(lines) > 2 {
+			top = lines[1] + lines[2]
+		}
+		sigs = append(sigs, m[1]+" "+m[2]+" "+top)
+	}
+	if len(sigs) == 0 {
+		return "", false
+	}
+	sort.Strings(sigs)
+	return strings.Join(sigs, "|"), true
 }
 
 func c06Check(c c06Case, r *ev.Rec) error {
@@ -133,7 +215,7 @@ func c06Check(c c06Case, r *ev.Rec) error {
 	for _, i := range c.Requested {
 		names = append(names, c.name(i))
 	}
-	wantCycle, wantMissing := c.model()
+	wantCycle, missingAny, cycleExplicit, wantMissing := c.model()
 	yields := map[string]int{}
 	for i, y := range c.Yields {
 		yields[c.name(i)] = y
@@ -205,12 +287,33 @@ func c06Check(c c06Case, r *ev.Rec) error {
 	if gotCycle && !wantCycle {
 		return fmt.Errorf("an import cycle was reported although the requested files do not reach one: %v; graph %+v", msgs, c)
 	}
-	if wantCycle && !wantMissing && !gotCycle {
+	// A failing file (here: one that imports a missing file) ends its task without waiting for its other
+	// imports, so a cycle that lies behind it may be found only after the call returned, or never be looked
+	// for: with a missing file in reach (by any edge) only the direction above is asserted.
+	if wantCycle && !missingAny && !gotCycle {
 		return fmt.Errorf("the requested files reach an import cycle but no cycle error was reported (errors: %v, err=%v); graph %+v", msgs, err1, c)
 	}
-	wantFail := wantCycle || wantMissing
-	if (err1 != nil) != wantFail || (err2 != nil) != wantFail {
-		return fmt.Errorf("compile err (collect-all)=%v, err (default)=%v, but model says fail=%v (cycle=%v missing=%v); graph %+v", err1, err2, wantFail, wantCycle, wantMissing, c)
+	switch {
+	case !missingAny:
+		// fails <=> a cycle is reachable
+		if (err1 != nil) != wantCycle || (err2 != nil) != wantCycle {
+			return fmt.Errorf("compile err (collect-all)=%v, err (default)=%v, but model says fail=%v (cycle=%v, no missing file in reach); graph %+v", err1, err2, wantCycle, wantCycle, c)
+		}
+	case !wantCycle:
+		// fails <=> explicit imports lead to a missing file
+		if (err1 != nil) != wantMissing || (err2 != nil) != wantMissing {
+			return fmt.Errorf("compile err (collect-all)=%v, err (default)=%v, but model says fail=%v (no cycle, missing file reachable by explicit imports=%v, by the implicit descriptor.proto dependency=%v); graph %+v", err1, err2, wantMissing, wantMissing, missingAny, c)
+		}
+	case wantMissing || cycleExplicit:
+		// both in reach, at least one of them by explicit imports alone: the failure propagates to a requested file
+		if err1 == nil || err2 == nil {
+			return fmt.Errorf("compile err (collect-all)=%v, err (default)=%v, but explicit imports lead to a cycle (%v) or a missing file (%v); graph %+v", err1, err2, cycleExplicit, wantMissing, c)
+		}
+	default:
+		// a cycle and a missing file, both only behind the implicit descriptor.proto dependency whose failure is
+		// ignored: whether the cycle is noticed before the call returns depends on the schedule; only termination
+		// and the truth of any reported cycle are asserted
+		r.Label("verdict-unconstrained(cycle+missing behind implicit descriptor.proto)")
 	}
 	edges := 0
 	for _, e := range c.Edges {
@@ -238,7 +341,7 @@ func firstLinesOf(s string, n int) string {
 	return strings.Join(l, "\n")
 }
 
-const c06Rule = "directed import graphs (self-imports, cycles of any length, diamonds, optional missing files, optionally one file playing an overriding google/protobuf/descriptor.proto on which every other file then depends implicitly) over trivially valid files; a subset is requested; compiled with a collect-all reporter and with the default reporter under a generated MaxParallelism and resolver yields, each under a 20 s watchdog (a compile takes milliseconds); oracle (reference model: DFS from the requested files): an error containing 'cycle found in imports' is reported <=> a cycle is reachable (when a missing file is also reachable only => is asserted), its file sequence is a walk of the graph that closes on itself, compile fails <=> a cycle or a missing file is reachable, and the call returns; non-trivial = (cyclic or >=3 edges) and parallelism >=2; distinct by case"
+const c06Rule = "directed import graphs (self-imports, cycles of any length, diamonds, optional missing files, optionally one file playing an overriding google/protobuf/descriptor.proto on which every other file then depends implicitly) over trivially valid files; a subset is requested; compiled with a collect-all reporter and with the default reporter under a generated MaxParallelism and resolver yields, each under a 20 s watchdog (a compile takes milliseconds); oracle (reference model: DFS from the requested files): an error containing 'cycle found in imports' is reported <=> a cycle is reachable (when a missing file is also reachable only => is asserted), its file sequence is a walk of the graph that closes on itself, the call returns, and it fails <=> a cycle is reachable or explicit imports lead to a missing file (the implicit descriptor.proto edge counts for cycles, but a failure behind it is ignored as compiler.go documents; when a cycle and a missing file are both reachable only through that edge the verdict is schedule-dependent and is not asserted); non-trivial = (cyclic or >=3 edges) and parallelism >=2; distinct by case"
 
 func TestC06_Enum(t *testing.T) {
 	n := 3
